@@ -54,6 +54,12 @@ TRUSTED = [
     "pinned body of the stateful branch of should_rerun (it sets self.started_worker to `old or worker`, reads "
     "shared_filtered_results and restores the attribute: its net effect is test_statuses := statuses of "
     "genFilteredResults c (c.startedWorker <|> w) shared — mirrored by hand, tied by the correspondence run)",
+    "GenRules.lean also holds genDefaultRunDecision (TestNode.default_run_decision, in the state monad StateT Bool "
+    "(Except Err): the state is whether the instance attribute should_rerun was replaced by `lambda _: False` — that "
+    "assignment is a pinned statement standing for `set true`; self.should_rerun(worker) is the action rerunM = the "
+    "generated genShouldRerun unless disabled; self.is_finished(worker, 1) and self.scan_states() are the inputs "
+    "`finished` / `scanRun`; `a or <action>` is printed as statements so that the action runs only when Python runs "
+    "it); defaultRunDecision_matches_source proves the hand written defaultRunDecision equal to it for all inputs",
 ]
 
 # the property's eight statuses and the acceptable ones -- deliberately NOT taken from /repo or the model
@@ -257,8 +263,8 @@ def _extract_gen(ctx):
         ctx.notes.append("I2N/Extracted/GenRules.lean changed: the source of TestNode.should_rerun / "
                          "shared_filtered_results differs from the one the committed file was generated from "
                          "(shouldRerun_matches_source / filteredResults_matches_source are re-checked)")
-    ctx.extra["regenerated"] = ("lean/I2N/Extracted/GenRules.lean (TestNode.should_rerun, shared_filtered_results via "
-                                "harness/pygen.py)")
+    ctx.extra["regenerated"] = ("lean/I2N/Extracted/GenRules.lean (TestNode.should_rerun, shared_filtered_results, "
+                                "default_run_decision via harness/pygen.py)")
 
 
 _EXTRACTED_VALUES = None
